@@ -88,6 +88,10 @@ func c12Ops(w *world, cfg c12Cfg) []wop {
 			}
 		}
 		ops = append(ops, wop{K: "asample", V: v})
+		if m.n < m.capTotal() && m.get(m.n) != 0 {
+			// the value zero appended over a cell that holds something else
+			ops = append(ops, wop{K: "asample", V: v, A: 1})
+		}
 		if m.n > 0 {
 			ops = append(ops, wop{K: "stamp", V: v})
 			if m.n <= 4 {
